@@ -800,7 +800,8 @@ func (p *Parser) parseImplementsInterfaces() (list ast.TypeList) {
 				}
 				list.Refs = append(list.Refs, ref)
 			} else {
-				p.errUnexpectedToken(p.read())
+				// the list is complete: an identifier that does not follow an ampersand is not part of it but
+				// starts the next definition ("type A implements B scalar C": fields and braces are optional)
 				return
 			}
 		default:
